@@ -1222,3 +1222,156 @@ where
     writer.write_all(b"\n")?;
     Ok(())
 }
+
+// ---------------------------------------------------------------------------
+// Verification hooks (compiled only with `--cfg markschl_seq_io_verif`).
+// They expose the private state and the private transition functions of the
+// reader so that external harnesses can run them from an arbitrary state.
+// No logic is duplicated: every wrapper calls the real function.
+// ---------------------------------------------------------------------------
+#[cfg(markschl_seq_io_verif)]
+#[doc(hidden)]
+pub struct VerifBufPos(BufferPosition);
+
+#[cfg(markschl_seq_io_verif)]
+#[doc(hidden)]
+impl VerifBufPos {
+    pub fn new(start: usize, seq_pos: Vec<usize>) -> Self {
+        VerifBufPos(BufferPosition { start, seq_pos })
+    }
+    pub fn record<'a>(&'a self, buffer: &'a [u8]) -> RefRecord<'a> {
+        RefRecord {
+            buffer,
+            buf_pos: &self.0,
+        }
+    }
+    pub fn start(&self) -> usize {
+        self.0.start
+    }
+    pub fn seq_pos(&self) -> &[usize] {
+        &self.0.seq_pos
+    }
+}
+
+#[cfg(markschl_seq_io_verif)]
+#[doc(hidden)]
+impl RecordSet {
+    pub fn verif_from_parts(buffer: Vec<u8>, positions: Vec<VerifBufPos>, npos: usize) -> Self {
+        RecordSet {
+            buffer,
+            positions: positions.into_iter().map(|p| p.0).collect(),
+            npos,
+        }
+    }
+    pub fn verif_buffer(&self) -> &[u8] {
+        &self.buffer
+    }
+    pub fn verif_npos(&self) -> usize {
+        self.npos
+    }
+    pub fn verif_positions_len(&self) -> usize {
+        self.positions.len()
+    }
+    pub fn verif_pos(&self, i: usize) -> (usize, &[usize]) {
+        (self.positions[i].start, &self.positions[i].seq_pos)
+    }
+    pub fn verif_positions_capacity(&self) -> usize {
+        self.positions.capacity()
+    }
+}
+
+#[cfg(markschl_seq_io_verif)]
+#[doc(hidden)]
+impl<R, P> Reader<R, P>
+where
+    R: io::Read,
+    P: BufPolicy,
+{
+    /// state: 0 New, 1 Parsing, 2 Incomplete, 3 Positioned, 4 Finished
+    #[allow(clippy::too_many_arguments)]
+    pub fn verif_from_parts(
+        buf_reader: buffer_redux::BufReader<R>,
+        buf_policy: P,
+        start: usize,
+        seq_pos: Vec<usize>,
+        line: u64,
+        byte: u64,
+        search_pos: usize,
+        state: u8,
+    ) -> Self {
+        Reader {
+            buf_reader,
+            buf_pos: BufferPosition { start, seq_pos },
+            position: Position::new(line, byte),
+            search_pos,
+            state: match state {
+                0 => State::New,
+                1 => State::Parsing,
+                2 => State::Incomplete,
+                3 => State::Positioned,
+                _ => State::Finished,
+            },
+            buf_policy,
+        }
+    }
+    pub fn verif_state(&self) -> u8 {
+        match self.state {
+            State::New => 0,
+            State::Parsing => 1,
+            State::Incomplete => 2,
+            State::Positioned => 3,
+            State::Finished => 4,
+        }
+    }
+    pub fn verif_start(&self) -> usize {
+        self.buf_pos.start
+    }
+    pub fn verif_seq_pos(&self) -> &[usize] {
+        &self.buf_pos.seq_pos
+    }
+    pub fn verif_seq_pos_capacity(&self) -> usize {
+        self.buf_pos.seq_pos.capacity()
+    }
+    pub fn verif_search_pos(&self) -> usize {
+        self.search_pos
+    }
+    pub fn verif_position(&self) -> (u64, u64) {
+        (self.position.line, self.position.byte)
+    }
+    pub fn verif_buf_reader(&self) -> &buffer_redux::BufReader<R> {
+        &self.buf_reader
+    }
+    pub fn verif_buf_reader_mut(&mut self) -> &mut buffer_redux::BufReader<R> {
+        &mut self.buf_reader
+    }
+    pub fn verif_current_record(&self) -> RefRecord {
+        RefRecord {
+            buffer: self.get_buf(),
+            buf_pos: &self.buf_pos,
+        }
+    }
+    pub fn verif_init(&mut self) -> Result<bool, Error> {
+        self.init()
+    }
+    pub fn verif_first_byte(&mut self) -> Result<Option<(usize, usize, u8)>, Error> {
+        self.first_byte()
+    }
+    pub fn verif_increment_record(&mut self) {
+        self.increment_record()
+    }
+    pub fn verif_search(&mut self) -> Result<bool, Error> {
+        self.search()
+    }
+    pub fn verif_search_inner(&mut self) -> bool {
+        self._search()
+    }
+    pub fn verif_resume_incomplete_search(&mut self, make_room: bool) -> Result<bool, Error> {
+        self.resume_incomplete_search(make_room)
+    }
+    pub fn verif_grow(&mut self) -> Result<(), Error> {
+        self.grow()
+    }
+    pub fn verif_make_room(&mut self) {
+        self.make_room()
+    }
+}
